@@ -191,6 +191,25 @@ def compare_dumps(ctx, A, s, now, tag, replay):
     return ok
 
 
+def owners_check(ctx, data, tag, rep):
+    """independent decoder: a saved content file maps a disk only if the disk owns something in it (a file, a link, a directory or a
+    DELETED block): fs_is_empty is decided AFTER the positions used by no file were cleared"""
+    try:
+        pa = CT.parse(data, 16)
+    except Exception as e:
+        ctx.viol(tag + '_parse', '%s: the independent decoder cannot read a content file written by the tool: %r' % (tag, e), rep)
+        return None
+    for m in pa['maps']:
+        d = pa['disks'].get(m['name'], {'files': [], 'links': [], 'dirs': [], 'deleted': {}})
+        if not d['files'] and not d['links'] and not d['dirs'] and not d['deleted']:
+            ctx.viol(tag + '_empty_map', '%s: the saved content file maps disk %s (M record, all-O hole record) although the disk owns nothing in the saved state: '
+                     'the disk cannot be dropped from the configuration and a rewrite gives other bytes' % (tag, m['name']), rep)
+            return pa
+    with ctx.lock:
+        ctx.stats['owner_checks'] = ctx.stats.get('owner_checks', 0) + 1
+    return pa
+
+
 def check_saved(ctx, A, now, tag, replay, hash_opt=(), clamp=False, before=None):
     """the three checks on the content file(s) just written at clock `now`.
     clamp: the clock went backwards (now < info times of the state that was saved): the file is the model's prediction from `before`
@@ -211,6 +230,7 @@ def check_saved(ctx, A, now, tag, replay, hash_opt=(), clamp=False, before=None)
             got = bytes.fromhex(pre[3:]) if pre.startswith('ok ') else b''
             ctx.viol(tag + '_predict', 'MODEL-DRIFT %s: the tool rewrote a content file at clock %d; model encode(now, decode(old file)) differs from the new file '
                      'at byte %d of %d' % (tag, now, first_diff(got, data), len(data)), dict(rep, before_hex=before.hex()), no_input=True)
+    owners_check(ctx, data, tag, rep)
     dec = ctx.model.ask('decode %s %s' % (kline, L.hx(data)))
     if not dec.startswith('ok '):
         # does the tool itself load what it wrote, and write it back unchanged?
@@ -473,6 +493,84 @@ def oldest_scenario(ctx, idx, seed, root):
     T += 20
     A.run(hopt + ['sync'], now=T)
     check_saved(ctx, A, T, 'O%d_4_sync' % idx, replay, hopt)
+    shutil.rmtree(root, ignore_errors=True)
+
+
+def emptied_scenario(ctx, idx, seed, root):
+    """a disk is emptied: its last blocks are DELETED ones, alone in their stripes or sharing stripes with other disks; the state is
+    saved by `sync -E` killed after the save that precedes the processing (--test-kill-after-sync), by a partial sync, or by a sync
+    that ends normally.  Every saved file: no map for a disk that owns nothing (independent decoder), model re-encode and real
+    rewrite byte-identical, dumps; and when the victim owns nothing any more the array must load with the victim removed from the
+    configuration."""
+    import random
+    rng = random.Random(seed)
+    nd = rng.choice([2, 2, 3])
+    hs = rng.choice([16, 16, 8])
+    A = L.Array(root, ctx.tool, ctx.shim, ndisk=nd, npar=rng.choice([1, 2]), hashsize=hs, ncontent=2)
+    # the second content copy must not sit on the victim
+    victim = rng.randrange(1, nd) if nd > 1 else 0
+    T = 1500000000 + rng.randrange(0, 2 ** 28)
+    replay = {'kind': 'emptied', 'seed': seed}
+    nfile = rng.choice([2, 3])
+    alone = rng.random() < 0.6      # same block counts on every disk: after the others free stripe group b, it is the victim's alone
+    ka, kb = rng.choice([1, 2, 3]), rng.choice([1, 2, 3])
+    if alone:
+        nfile = 2
+    for d in range(nd):
+        for j in range(nfile + (1 if d != victim else 0)):
+            size = 1024 * ((ka, kb, 1)[min(j, 2)] if alone else rng.choice([1, 2, 2])) - (rng.choice([0, 1, 500]) if alone else 0)
+            L.write_file(A.dpath(d, b'%c_f%d' % (97 + j, d)), size, rng)
+    if rng.random() < 0.3:
+        os.symlink(b'x', A.dpath(victim, b'zlink'))
+    A.run(['sync'], now=T)
+    check_saved(ctx, A, T, 'E%d_0_sync' % idx, replay)
+    # free some stripes on the OTHER disks so that some stripes of the victim are its own
+    T += rng.randrange(8, 3000)
+    for d in range(nd):
+        if d != victim:
+            j = 1 if alone else rng.randrange(1, nfile + 1)
+            os.remove(A.dpath(d, b'%c_f%d' % (97 + j, d)))
+    if rng.random() < (0.7 if alone else 0.5):
+        os.remove(A.dpath(victim, b'a_f%d' % victim))
+    loaded = A.content(0)
+    A.run(['sync'], now=T)
+    history_check(ctx, loaded, A.content(0), 'sync', 'E%d_1_sync' % idx, replay, hs)
+    check_saved(ctx, A, T, 'E%d_1_sync' % idx, replay)
+    # empty the victim
+    for f in os.listdir(A.dpath(victim, b'')):
+        if not f.startswith(b'snapraid.content'):
+            os.remove(os.path.join(A.dpath(victim, b''), f))
+    T += rng.randrange(8, 3000)
+    args = rng.choice([['sync', '-E', '--test-kill-after-sync'], ['sync', '-E', '--test-kill-after-sync'], ['sync', '-E', '-B', '1'],
+                       ['sync', '-E', '-S', '1000', '-B', '1'], ['sync', '-E']])
+    loaded = A.content(0)
+    rc, out = A.run(args, now=T)
+    after = A.content(0)
+    tag = 'E%d_2_%s' % (idx, 'kill' if 'kill' in args[-1] else ('partial' if '-B' in args else 'sync'))
+    with ctx.lock:
+        ctx.stats['commands'] += 3
+        ctx.stats['emptied_histories'] = ctx.stats.get('emptied_histories', 0) + 1
+    history_check(ctx, loaded, after, 'sync', tag, replay, hs)
+    rep = dict(replay, args=args, content_hex=(after or b'').hex())
+    try:
+        pa = CT.parse(after, 16) if after else None      # the ownership rule itself is applied by check_saved
+    except Exception:
+        pa = None
+    check_saved(ctx, A, T, tag, replay)
+    if pa is not None and A.labels[victim] not in [m['name'] for m in pa['maps']]:
+        # the saved state has no trace of the victim: the user may drop it from the configuration
+        A.install(after)
+        A.order = [i for i in A.order if i != victim]
+        A.write_conf()
+        rc2, out2 = A.run(['status'], now=T)
+        with ctx.lock:
+            ctx.stats['commands'] += 1
+            ctx.stats['reload_without_empty_disks'] = ctx.stats.get('reload_without_empty_disks', 0) + 1
+        if rc2 != 0:
+            ctx.viol(tag + '_dropped_disk', '%s: the saved state has no map for %s, yet the array does not load (rc %d) with that disk removed from the configuration: %s'
+                     % (tag, A.labels[victim], rc2, out2[-200:].decode('latin1')), rep)
+        else:
+            check_saved(ctx, A, T, tag + '_without_disk', replay)
     shutil.rmtree(root, ignore_errors=True)
 
 
@@ -900,8 +998,30 @@ def gen_case(ctx, idx, seed, root, big, state_override=None, now_override=None):
                         bad = 'disk %s: DELETED blocks after the save differ from the ones of the used positions before it at positions %s: %s, expected %s' % (
                             d['name'].decode('latin1'), pos, [(q, g[q].hex()) for q in pos if q in g], [(q, exp[q].hex()) for q in pos if q in exp])
                         break
+                if not bad:
+                    gm = [m['name'].encode('latin1') for m in CT.parse(d3, 16)['maps']]
+                    em = [m['name'] for m in want['maps']]
+                    if gm != em:
+                        bad = 'maps after the save %s, expected %s (a disk left with nothing after the clean-up is not mapped)' % (gm, em)
             except Exception as e:
                 bad = 'the independent decoder cannot read the rewritten file: %r' % (e,)
+            # the disks that own nothing any more can be dropped from the configuration
+            keepn = {m['name'] for m in want['maps']}
+            keepi = [i for i in A.order if A.labels[i].encode() in keepn]
+            if not bad and keepi and len(keepi) < len(A.order):
+                saved_order = list(A.order)
+                A.order = keepi
+                A.write_conf()
+                A.install(d3)          # the content copies live in directories that stay
+                rc2, out2 = A.run(['list'], now=now)
+                A.order = saved_order
+                A.write_conf()
+                with ctx.lock:
+                    ctx.stats['commands'] += 1
+                    ctx.stats['reload_without_empty_disks'] = ctx.stats.get('reload_without_empty_disks', 0) + 1
+                if rc2 != 0:
+                    bad = 'after the save the disks %s own nothing, but the array does not load (rc %d) once they are removed from the configuration: %s' % (
+                        [A.labels[i] for i in saved_order if i not in keepi], rc2, out2[-200:].decode('latin1'))
         if rc != 0:
             ctx.viol(tag + '_uncleaned', '%s: the tool does not load (rc %d) a content file whose only oddity is DELETED blocks at unused positions, which the model '
                      'loads: %s' % (tag, rc, out[-200:].decode('latin1')), rrep, no_input=not pred.startswith('ok '))
@@ -1189,6 +1309,8 @@ def replay_case(path):
     kind = rp.get('kind')
     if kind == 'scenario':
         scenario(ctx, 0, rp['seed'], rp['steps'], os.path.join(root, 'a'))
+    elif kind == 'emptied':
+        emptied_scenario(ctx, 0, rp['seed'], os.path.join(root, 'a'))
     elif kind == 'oldest':
         oldest_scenario(ctx, 0, rp['seed'], os.path.join(root, 'a'))
     elif kind == 'big':
@@ -1291,6 +1413,8 @@ def main(tier, replay=None):
             jobs.append(ex.submit(scenario, ctx, i, rng.getrandbits(48), steps, os.path.join(base, 'A%d' % i)))
         for i in range(60 if thorough else 16):
             jobs.append(ex.submit(hole_scenario, ctx, i, rng.getrandbits(48), os.path.join(base, 'H%d' % i)))
+        for i in range(40 if thorough else 12):
+            jobs.append(ex.submit(emptied_scenario, ctx, i, rng.getrandbits(48), os.path.join(base, 'EM%d' % i)))
         for i in range(40 if thorough else 10):
             jobs.append(ex.submit(oldest_scenario, ctx, i, rng.getrandbits(48), os.path.join(base, 'OL%d' % i)))
         for i in range(12 if thorough else 4):
